@@ -40,6 +40,7 @@ type Harness struct {
 	NoF2ICheck bool
 	NoMono     bool
 	Conc       bool
+	Workers    int
 	Doc        string
 	Opts       map[string]string
 }
@@ -290,30 +291,144 @@ func runHarness(cfg *Config, ld *Loaded, h *Harness, known []*Finding) (res *Har
 		runConcHarness(cfg, ld, h, fn, solver, res, known)
 		return
 	}
+	// parallel exploration of the path worklist: one solver process per worker
+	workers := h.Workers
+	if workers < 1 {
+		workers = 1
+	}
+	var mu sync.Mutex
 	pending := [][]int{{}}
-	for len(pending) > 0 {
-		prefix := pending[len(pending)-1]
-		pending = pending[:len(pending)-1]
-		if res.Paths >= h.MaxPaths {
-			res.Inconclusive = append(res.Inconclusive, fmt.Sprintf("%s: path budget %d exhausted", h.Name, h.MaxPaths))
-			break
-		}
-		res.Paths++
-		runPath(cfg, ld, h, fn, solver, res, known, prefix, &pending)
-		if len(res.Errors) > 0 {
-			break
+	active := 0
+	started := 0
+	cond := sync.NewCond(&mu)
+	push := func(p []int) {
+		mu.Lock()
+		pending = append(pending, p)
+		mu.Unlock()
+		cond.Signal()
+	}
+	parts := make([]*HarnessResult, workers)
+	var wg sync.WaitGroup
+	for w := 0; w < workers; w++ {
+		wg.Add(1)
+		go func(w int) {
+			defer wg.Done()
+			part := &HarnessResult{H: h, Obls: map[string]*OblStat{}, Reaches: map[string]int{}, Funcs: map[string]bool{}, Stubs: map[string]bool{}, UnwindFail: map[string]bool{}}
+			parts[w] = part
+			sv := solver
+			if w > 0 {
+				var err error
+				sv, err = StartSolverTO(kind, h.FeasTO)
+				if err != nil {
+					return
+				}
+				defer sv.Close()
+			}
+			for {
+				mu.Lock()
+				for len(pending) == 0 && active > 0 {
+					cond.Wait()
+				}
+				if len(pending) == 0 {
+					mu.Unlock()
+					cond.Broadcast()
+					return
+				}
+				prefix := pending[len(pending)-1]
+				pending = pending[:len(pending)-1]
+				if started >= h.MaxPaths {
+					mu.Unlock()
+					part.Inconclusive = append(part.Inconclusive, fmt.Sprintf("%s: path budget %d exhausted", h.Name, h.MaxPaths))
+					cond.Broadcast()
+					return
+				}
+				started++
+				active++
+				mu.Unlock()
+				part.Paths++
+				ctlPush := push
+				runPath(cfg, ld, h, fn, sv, part, known, prefix, ctlPush)
+				mu.Lock()
+				active--
+				stop := len(part.Errors) > 0
+				if stop {
+					pending = nil
+				}
+				mu.Unlock()
+				cond.Broadcast()
+				if stop {
+					return
+				}
+			}
+		}(w)
+	}
+	wg.Wait()
+	for _, p := range parts {
+		if p != nil {
+			res.merge(p)
 		}
 	}
 	return
 }
 
-func newExec(ld *Loaded, h *Harness, solver *Solver, res *HarnessResult, known []*Finding, prefix []int, pending *[][]int) *Exec {
+func (r *HarnessResult) merge(p *HarnessResult) {
+	r.Paths += p.Paths
+	r.PathsPruned += p.PathsPruned
+	r.Queries += p.Queries
+	r.SolverTime += p.SolverTime
+	r.FpOps += p.FpOps
+	r.Blocked += p.Blocked
+	r.ConcCombos += p.ConcCombos
+	r.Events += p.Events
+	r.Candidates = append(r.Candidates, p.Candidates...)
+	r.Inconclusive = append(r.Inconclusive, p.Inconclusive...)
+	r.Errors = append(r.Errors, p.Errors...)
+	r.Winners = append(r.Winners, p.Winners...)
+	for k, v := range p.Reaches {
+		r.Reaches[k] += v
+	}
+	for k := range p.Funcs {
+		r.Funcs[k] = true
+	}
+	for k := range p.Stubs {
+		r.Stubs[k] = true
+	}
+	for k := range p.UnwindFail {
+		r.UnwindFail[k] = true
+	}
+	for _, s := range p.Samples {
+		if len(r.Samples) < 3 {
+			r.Samples = append(r.Samples, s)
+		}
+	}
+	for id, o := range p.Obls {
+		t, ok := r.Obls[id]
+		if !ok {
+			r.Obls[id] = o
+			continue
+		}
+		t.Posed += o.Posed
+		t.Discharged += o.Discharged
+		t.Trivial += o.Trivial
+		t.Nontrivial += o.Nontrivial
+		t.Reached += o.Reached
+		t.SolverMs += o.SolverMs
+		for k := range o.Pos {
+			t.Pos[k] = true
+		}
+		if t.Sample == "" {
+			t.Sample = o.Sample
+		}
+	}
+}
+
+func newExec(ld *Loaded, h *Harness, solver *Solver, res *HarnessResult, known []*Finding, prefix []int, push func([]int)) *Exec {
 	ts := NewTS()
 	r := NewRenderer(h.Mode)
 	r.NoMono = h.NoMono
 	ex := &Exec{prog: ld.prog, ts: ts, h: h, globals: map[*ssa.Global]*Object{}, locks: map[string]*lockState{},
 		funcs: res.Funcs, stubs: res.Stubs, ghost: map[string]Value{}, forkCnt: map[ssa.Instruction]int{}, initDone: map[*ssa.Package]bool{}}
-	ex.ctl = &PathCtl{prefix: append([]int{}, prefix...), pending: pending}
+	ex.ctl = &PathCtl{prefix: append([]int{}, prefix...), push: push}
 	ex.sess = &Session{solver: solver, r: r, ts: ts, ex: ex, res: res, feasTO: h.FeasTO, oblTO: h.OblTO, known: known}
 	if solver != nil {
 		ex.sess.lastRestarts = solver.restarts
@@ -321,8 +436,8 @@ func newExec(ld *Loaded, h *Harness, solver *Solver, res *HarnessResult, known [
 	return ex
 }
 
-func runPath(cfg *Config, ld *Loaded, h *Harness, fn *ssa.Function, solver *Solver, res *HarnessResult, known []*Finding, prefix []int, pending *[][]int) {
-	ex := newExec(ld, h, solver, res, known, prefix, pending)
+func runPath(cfg *Config, ld *Loaded, h *Harness, fn *ssa.Function, solver *Solver, res *HarnessResult, known []*Finding, prefix []int, push func([]int)) {
+	ex := newExec(ld, h, solver, res, known, prefix, push)
 	ex.sess.Begin()
 	defer func() {
 		res.FpOps += ex.sess.r.FpOps
